@@ -321,7 +321,8 @@ def evaluate(case):
 
 # --------------------------------------------------------------------------------------------------
 PDBS_QUICK = [("native.pdb", {}), ("2koc.pdb", {"frames": [0, 1]}), ("2EQQ.pdb", {"frames": [0, 1, 2]}), ("1vii.pdb", {}), ("1bpi.pdb", {}), ("bpti.pdb", {}),
-              ("aaqaa-wat.pdb", {}), ("1am7_protein.pdb", {}), ("4OH9.pdb", {}), ("1ncw.pdb.gz", {"protein_chains_only": True, "max_residues": 441})]
+              ("aaqaa-wat.pdb", {}), ("1am7_protein.pdb", {}), ("4OH9.pdb", {}), ("1ncw.pdb.gz", {"protein_chains_only": True, "max_residues": 441}),
+              ("3nch.pdb.gz", {"protein_chains_only": True, "max_residues": 200})]  # parallel ladders linked by a 4-residue bulge
 PDBS_THOROUGH = PDBS_QUICK + [("1ncw.pdb.gz", {}), ("4ZUO.pdb", {}), ("1vii_sustiva_water.pdb", {"frames": [0, 2]}), ("frame0.h5", {"frames": [0, 250, 500]}),
                               ("2EQQ.pdb", {"frames": list(range(20))}), ("3nch.pdb.gz", {"max_residues": 700})]
 GENERATED = [
